@@ -157,7 +157,7 @@ theorem perm_full {d : EnumData} {n : Nat} (hwf : WF d n) (hp : perInstance d n 
   have hn : n = d.q := by
     unfold perInstance at hp
     simp only [Bool.and_eq_true, decide_eq_true_eq] at hp
-    exact hp.1
+    exact hp.1.1
   unfold PermOK at hw
   simp only [hs, if_true] at hw
   obtain ⟨hl, hlt, hnd⟩ := hw
